@@ -312,20 +312,23 @@ def report():
         print(f"  {r['id']} {r['file']}:{r['line']} [{r['op']}] {r['text'][:110]}{tag}")
 
 
-def cross(slot="x0"):
+def cross(slot="x0", shard=0, nshards=1):
     """survivors re-run against every OTHER property anchored in the same file (a mutant in a shared file may belong to a neighbour)"""
     import mutcheck
 
     index = json.load(open(os.path.join(OUT, "index.json")))
     anc = anchors()
     mutcheck.sync(f"/tmp/verif_iso_{slot}")
-    for m in index:
+    for i_m, m in enumerate(index):
+        if i_m % nshards != shard:
+            continue
         p = os.path.join(OUT, m["id"] + ".json")
         if not os.path.exists(p):
             continue
         r = json.load(open(p))
-        if r.get("rc") != 0 or "passed" not in str(r.get("tests")) or "failed" in str(r.get("tests")) or "cross" in r:
+        if r.get("rc") != 0 or "passed" not in str(r.get("tests")) or "failed" in str(r.get("tests")) or r.get("cross_round") == RECHECK_ROUND:
             continue
+        r["cross_round"] = RECHECK_ROUND
         others = sorted(q for q, rr in anc.items() if q != m["prop"] and any(f == m["file"] for f, _, _ in rr))
         res = mutcheck.run(slot, m["patch"], others, jobs=6).get("checks", {}) if others else {}
         r["cross"] = {q: {"rc": c.get("rc"), "what": (c.get("what") or "")[:200]} for q, c in res.items()}
@@ -366,7 +369,7 @@ if __name__ == "__main__":
     if cmd == "gen":
         gen(int(arg("--per-prop", "40")), int(arg("--seed", "1")))
     elif cmd == "cross":
-        cross()
+        cross(arg("--slot", "x0"), int(arg("--shard", "0")), int(arg("--of", "1")))
     elif cmd == "recheck":
         recheck(arg("--slot", "rc0"), int(arg("--shard", "0")), int(arg("--of", "1")), "--redo" in sys.argv)
     elif cmd == "run":
